@@ -305,10 +305,11 @@ func c18RunScenario(run *Run, sc *c18Scenario) {
 		return
 	}
 	var want struct {
-		Dials     int        `json:"dials"`
-		Conns     []any      `json:"conns"`
-		Delivered [][]string `json:"delivered"`
-		Expect    []int      `json:"expect"` // per op: how many events the op delivers in the model
+		Dials      int        `json:"dials"`
+		Conns      []any      `json:"conns"`
+		Delivered  [][]string `json:"delivered"`
+		Expect     []int      `json:"expect"`     // per op: how many events the op delivers in the model
+		ConnsAfter []int      `json:"connsAfter"` // per op: live connections after the op in the model
 	}
 	_ = json.Unmarshal(raw, &want)
 	total := func() int {
@@ -377,6 +378,11 @@ func c18RunScenario(run *Run, sc *c18Scenario) {
 			c18Wait(func() bool { return total() >= before+exp }, 2*time.Second)
 		} else if op.Op == "upstreamSub" {
 			time.Sleep(3 * time.Millisecond)
+		}
+		// an op that ends the last subscription of a connection closes it right after the handler returned: wait for the
+		// client to have done so, as the model has (a subscribe that overtakes the close would legitimately reuse it)
+		if k < len(want.ConnsAfter) {
+			c18Wait(func() bool { return client.Stats().WSConns == want.ConnsAfter[k] }, time.Second)
 		}
 	}
 	time.Sleep(5 * time.Millisecond)
